@@ -19,7 +19,7 @@
    the code as well (its reservation is in memory only); the theorem is about stops
    between operations. *)
 From HostdBase Require Import Base.
-From HostdRestart Require Import Model Proofs.
+From HostdRestart Require Import Model Proofs Proofs2.
 
 (* every operation keeps what the managers hold in memory equal to what a start would load:
    sector-root cache, webhook map and scope tree, settings (with the revision), account
@@ -48,6 +48,15 @@ Theorem c18_restart_transparent_state : forall s,
   observe (restart s) = observe s /\ forall e, deliver (mem (restart s)) e = deliver (mem s) e.
 Proof. exact restart_transparent. Qed.
 Print Assumptions c18_restart_transparent_state.
+
+(* ... and it stays invisible: whatever operations follow — including events of any scope,
+   renewals, further restarts — the host that was restarted and the one that was not
+   answer every one of them identically *)
+Theorem c18_restart_invisible_partial : forall l l',
+  benign_run init l = true -> budgets (runs init l) = [] ->
+  observations (restart (runs init l)) l' = observations (runs init l) l'.
+Proof. exact (fun l l' Hb Hq => restart_invisible (runs init l) l' (runs_coh l init coh_init Hb) Hq). Qed.
+Print Assumptions c18_restart_invisible_partial.
 
 (* the state after a restart is coherent again, whatever happened before *)
 Theorem c18_restart_establishes_coherence : forall s,
